@@ -72,6 +72,13 @@ pub fn sigma() -> Vec<Op> {
         Op::WriteAll(s("f"), b"R".to_vec()),       // 43
         Op::ReadAll(s("f")),                       // 44
         Op::Paths(s(".")),                         // 45
+        // listings and recursive calls that follow links, around a directory link whose target comes and goes
+        Op::EntriesFollow(s("/d")),                // 46
+        Op::MkdirP(s("/t")),                       // 47
+        Op::Mkfile(s("/t/x")),                     // 48
+        Op::Mkfile(s("/d/a")),                     // 49
+        Op::RemoveAll(s("/t")),                    // 50
+        Op::ChownB(s("/d"), Some(5), None, true, true), // 51 (multi-step by contract)
     ]
 }
 
@@ -95,6 +102,7 @@ pub fn inits() -> Vec<(&'static str, Vec<Op>)> {
         ("/d/f=\"0\"", vec![Op::MkdirP(s("/d")), Op::WriteAll(s("/d/f"), b"0".to_vec())]),
         ("/d empty, /e=\"e\"", vec![Op::MkdirP(s("/d")), Op::WriteAll(s("/e"), b"e".to_vec())]),
         ("/d/f=\"0\", /e empty, cwd /d", vec![Op::MkdirP(s("/d")), Op::WriteAll(s("/d/f"), b"0".to_vec()), Op::MkdirP(s("/e")), Op::SetCwd(s("/d"))]),
+        ("/d/l -> /t (a directory link whose target was removed)", vec![Op::MkdirP(s("/d")), Op::MkdirP(s("/t")), Op::Symlink(s("/d/l"), s("/t")), Op::RemoveAll(s("/t"))]),
     ]
 }
 
@@ -420,6 +428,8 @@ fn families(tier: Tier) -> Vec<Family> {
     f.push(Family { name: "open write/append handle x 2 calls on the same name", inits: None, progs: hp, bound: None, cap: 200_000 });
     // relative arguments against a moving cwd (both paths of a two-path call resolve against one cwd)
     f.push(Family { name: "2x2 over the relative-argument core, cwd /d", inits: Some(vec![3]), progs: programs_tk(&relcore, 2, 2), bound: None, cap: 200_000 });
+    let linkcore: Vec<usize> = vec![46, 47, 48, 49, 50, 51];
+    f.push(Family { name: "2x2 over the followed-listing core, dangling directory link", inits: Some(vec![4]), progs: programs_tk(&linkcore, 2, 2), bound: None, cap: 200_000 });
     if tier == Tier::Thorough {
         f.push(Family { name: "2x2 over the atomic alphabet", inits: None, progs: programs_tk(&atomic, 2, 2), bound: None, cap: 200_000 });
         f.push(Family { name: "2x3 over a 6-call core", inits: None, progs: programs_tk(&core6, 2, 3), bound: None, cap: 200_000 });
